@@ -120,7 +120,7 @@ func v30normalizeProducts() {}
 // quick: all values and results are small ints. thorough: also sums of 2..3 integers up to 10^12
 // (SuInt64 representation).
 //
-//symgo:harness prop=C30 tier=quick arith=int shards=2 tshards=8 timeout=300 ttimeout=1700 qtimeout=20000 bounds=n-ary_+_-_and_*_/_with_2..3_(thorough_4)_operands,_each_a_literal_or_an_identifier;+_-:_integers_|v|<=8000_(thorough_also_|v|<=10^12_with_2..3_operands);*_/:_multipliers_m*(divisors_they_carry)_|m|<=9,_divisors_1<=|d|<=3;all_divisions_exact_by_construction outside=decimals_and_inexact_division;zero_divisors;ill-typed_operands;integers_beyond_the_stated_ranges
+//symgo:harness prop=C30 tier=quick arith=int shards=2 tshards=16 timeout=300 ttimeout=1700 qtimeout=20000 bounds=n-ary_+_-_and_*_/_with_2..3_(thorough_4)_operands,_each_a_literal_or_an_identifier;+_-:_integers_|v|<=8000_(thorough_also_|v|<=10^12_with_2..3_operands);*_/:_multipliers_m*(divisors_they_carry)_|m|<=9,_divisors_1<=|d|<=3;all_divisions_exact_by_construction outside=decimals_and_inexact_division;zero_divisors;ill-typed_operands;integers_beyond_the_stated_ranges
 func VerifC30FoldArith() {
 	maxN := 3
 	if rt.Thorough() {
